@@ -80,7 +80,7 @@ from genjax.pjax import (
 # Internal JAX utilities used by the ADEV interpreter.
 from jax._src import util as jax_util
 from jax.extend import source_info_util as src_util
-from jax.extend.core import Jaxpr, Var, jaxpr_as_fun
+from jax.extend.core import Jaxpr, Literal, Var, jaxpr_as_fun
 from jax.interpreters import ad as jax_autodiff
 from jaxtyping import ArrayLike
 
@@ -461,10 +461,24 @@ class ADEV(Pytree):
         jaxpr: Jaxpr,
         consts: list[ArrayLike],
         flat_duals: list[Dual],
+        zero_invars: tuple[bool, ...] | None = None,
     ):
         dual_env = Environment()
         jax_util.safe_map(dual_env.write, jaxpr.constvars, Dual.tree_pure(consts))
         jax_util.safe_map(dual_env.write, jaxpr.invars, flat_duals)
+
+        # Variables whose tangent is exactly zero (constants, everything computed
+        # from constants only, results of non-differentiable steps). Duals carry
+        # materialized tangents, so this is where ADEV keeps what JAX's forward
+        # mode knows as symbolic zeros: a JVP rule applied to a materialized
+        # zero tangent yields 0 * inf = nan at a singular point (sqrt at 0,
+        # arcsin at 1), where the derivative of a constant is exactly 0.
+        static_vars = {id(v) for v in jaxpr.constvars}
+        if zero_invars is not None and len(zero_invars) == len(jaxpr.invars):
+            static_vars |= {id(v) for v, z in zip(jaxpr.invars, zero_invars) if z}
+
+        def _is_static(v):
+            return isinstance(v, Literal) or id(v) in static_vars
 
         def _primal_env(env: Environment):
             pure_env = env.copy()
@@ -582,11 +596,15 @@ class ADEV(Pytree):
                                 dual_leaves,
                             )
 
+                        zero_operands = tuple(
+                            _is_static(v) for v in eqn.invars[1:]
+                        )
                         branch_adev_functions = list(
                             map(
                                 lambda fn: ADEV.forward_mode(
                                     jaxpr_as_fun(fn),
                                     _cond_dual_kont,
+                                    zero_operands,
                                 ),
                                 params["branches"],
                             )
@@ -608,6 +626,7 @@ class ADEV(Pytree):
                         if len(flat_primals) == 0:
                             primal_outs = eqn.primitive.bind(*flat_primals, **params)
                             tangent_outs = jtu.tree_map(_zero_tangent_like, primal_outs)
+                            static_vars.update(id(v) for v in eqn.outvars)
                         else:
                             # Mirror JAX AD's internal canonicalization:
                             # float0 arrays represent symbolic zero tangents.
@@ -615,12 +634,24 @@ class ADEV(Pytree):
                                 _canonicalize_tangent_for_primitive_jvp(p, t)
                                 for p, t in zip(flat_primals, flat_tangents)
                             ]
+                            # Inputs that do not depend on the differentiated
+                            # arguments enter the rule as symbolic zeros.
+                            if len(flat_primals) == len(eqn.invars):
+                                canonical_tangents = [
+                                    jax_autodiff.Zero.from_primal_value(p)
+                                    if _is_static(v)
+                                    else t
+                                    for v, p, t in zip(
+                                        eqn.invars, flat_primals, canonical_tangents
+                                    )
+                                ]
 
                             # If all inputs have zero tangents, skip primitive JVP
                             # rule dispatch and evaluate primal-only.
                             if all(_is_ad_zero(t) for t in canonical_tangents):
                                 primal_outs = eqn.primitive.bind(*flat_primals, **params)
                                 tangent_outs = jtu.tree_map(_zero_tangent_like, primal_outs)
+                                static_vars.update(id(v) for v in eqn.outvars)
                             else:
                                 jvp = jax_autodiff.primitive_jvps.get(eqn.primitive)
                                 if not jvp:
@@ -666,7 +697,7 @@ class ADEV(Pytree):
         return eval_jaxpr_iterate_dual(jaxpr.eqns, dual_env, jaxpr.invars, flat_duals)
 
     @staticmethod
-    def forward_mode(f, kont=lambda v: v):
+    def forward_mode(f, kont=lambda v: v, zero_args=None):
         def _inner(*duals: DualTree):
             primals = Dual.tree_primal(duals)
             closed_jaxpr, (_, _, out_tree) = stage(f)(*primals)
@@ -676,6 +707,7 @@ class ADEV(Pytree):
                 jaxpr,
                 consts,
                 dual_leaves,
+                zero_args,
             )
             out_tree_def = out_tree()
             tree_primals, tree_tangents = Dual.tree_unzip(out_duals)
